@@ -252,6 +252,12 @@ func ExtractValue(v reflect.Value, extractor ValueExtractor) {
 	}
 	v = RawValue(v)
 
+	// a timestamp is a scalar of the format: its type takes no entry and its parts are not walked
+	// (a struct of the caller's named Time or Location would lose its entry to time.Time / time.Location)
+	if v.IsValid() && v.Type() == _timeType {
+		return
+	}
+
 	if !extractor(v) {
 		return
 	}
@@ -332,7 +338,7 @@ func fetchType(typ reflect.Type, typMap map[string]reflect.Type, walked map[refl
 		return
 	}
 
-	if typ.Kind() != reflect.Struct {
+	if typ.Kind() != reflect.Struct || typ == _timeType {
 		return
 	}
 
